@@ -303,14 +303,15 @@ def lp_candidates(case, int_key=None):
                 yield f"A[{i}][{j}] {A[i][j]}->{v}", k
 
 
-def shrink(case, candidates, fails_batch, max_rounds=80, max_seconds=40.0):
+def shrink(case, candidates, fails_batch, max_rounds=80, max_seconds=40.0, deadline=None):
     """Greedy delta debugging: in every round all single-step candidates are evaluated in one batch (implementation
-    in the worker pool, model in one driver call) and the first one on which the same failure still shows is kept."""
+    in the worker pool, model in bounded driver calls) and the first one on which the same failure still shows is
+    kept.  Stops at `deadline` (absolute time of the whole run's shrink budget) or after `max_seconds`."""
     import time
     t0 = time.time()
     history = []
     for _ in range(max_rounds):
-        if time.time() - t0 > max_seconds:
+        if time.time() - t0 > max_seconds or (deadline is not None and time.time() > deadline):
             history.append("time budget exhausted")
             break
         cands = list(candidates(case))
@@ -340,3 +341,62 @@ def write_min(ctx, prop, function, klass, case, history, extra=None):
     ctx.notes.append(msg)
     print("SHRUNK " + msg)
     return path
+
+
+# ---------------------------------------------------------------------------
+# bounded driver calls: a check must end on a FAILING tree too
+# ---------------------------------------------------------------------------
+
+LIMITS = {
+    "quick": {"drv": 120.0, "shrink_total": 60.0, "pool": 30.0, "mirror_nodes": 3000, "slices": 3},
+    "thorough": {"drv": 600.0, "shrink_total": 300.0, "pool": 90.0, "mirror_nodes": 30000, "slices": 6},
+}
+CANDIDATE_SECONDS = 5.0      # one shrink candidate, implementation and model each
+
+
+def safe_run(reqs, timeout, parts=None, nproc=16, retry=True, area="Lp"):
+    """Driver("Lp").run with a wall-clock cap.  The requests are split into `parts` (default: `nproc` contiguous
+    chunks), every part runs in its own driver process with `timeout`; a part that times out or dies is retried once
+    in pieces of <= 4 requests (half the timeout each), and what fails again is answered `None` (the caller drops
+    those cases with a note – never a verdict)."""
+    from concurrent.futures import ThreadPoolExecutor
+    import core
+    n = len(reqs)
+    out = [None] * n
+    if n == 0:
+        return out, 0
+    if parts is None:
+        size = max(1, (n + nproc - 1) // nproc)
+        parts = [list(range(k, min(n, k + size))) for k in range(0, n, size)]
+
+    def one(idx, tmo):
+        try:
+            rs = core.Driver(area).run([reqs[i] for i in idx], timeout=tmo, chunks=1)
+            return idx, rs
+        except core.Infra:
+            return idx, None
+
+    failed = []
+    with ThreadPoolExecutor(max_workers=nproc) as ex:
+        for idx, rs in ex.map(lambda p: one(p, timeout), parts):
+            if rs is None:
+                failed.append(idx)
+            else:
+                for i, r in zip(idx, rs):
+                    out[i] = r
+        if retry and failed:
+            small = [idx[k:k + 4] for idx in failed for k in range(0, len(idx), 4)]
+            for idx, rs in ex.map(lambda p: one(p, max(5.0, timeout / 2)), small):
+                if rs is not None:
+                    for i, r in zip(idx, rs):
+                        out[i] = r
+    dropped = sum(1 for r in out if r is None)
+    return out, dropped
+
+
+def note_dropped(ctx, dropped, what):
+    if dropped:
+        ctx.count("dropped:driver_timeout", dropped)
+        msg = f"{what}: model requests dropped after a driver timeout (no verdict on those cases)"
+        if msg not in ctx.notes:
+            ctx.notes.append(msg)
